@@ -148,8 +148,9 @@ def sel_matches(spec, labels):
 
 # ---------------------------------------------------------------- trace view
 class Trace:
-    def __init__(self, cid, ops, obs):
+    def __init__(self, cid, ops, obs, xmap=None):
         self.cid, self.ops = cid, ops
+        self.xmap = xmap or {}
         self.res = [o.get("res") for o in obs]
         self.fx = [parse_fx(o.get("fx", "-")) for o in obs]
         self.snap = [parse_snap(o.get("snap", "none")) for o in obs]
@@ -182,7 +183,9 @@ class Trace:
             if f[0] == "cc+" and len(f) == 9:
                 # a name can be deleted and created again: the latest creation that took effect counts
                 if f[1] not in out or f[1] not in live:
-                    out[f[1]] = {"v4": ptok(f[2]) if f[2] != "-" else None, "v6": ptok(f[3]) if f[3] != "-" else None,
+                    # arbitrary-text fields (x: tokens) mean what the controller's own parser reads (oracle file)
+                    out[f[1]] = {"v4": ptok(self.xmap.get(f[2], f[2])) if f[2] != "-" else None,
+                                 "v6": ptok(self.xmap.get(f[3], f[3])) if f[3] != "-" else None,
                                  "hb": int(f[4]), "sel": f[5]}
         return out
 
